@@ -20,4 +20,10 @@ void put_solution (mpq_QSdata * p);
 int qsx_more_commands (const char *c);
 void dump_api (mpq_QSdata * p);
 void qsx_dump_all (mpq_QSdata * p);
+/* protocol output goes to PO (a dup of the original fd 1), so that fd 1 and fd 2 can be redirected to
+ * capture files (QSX_CAPTURE=1) and every byte the library writes there is counted (C20) */
+#include <stdio.h>
+extern FILE *PO;
+#define printf(...) fprintf (PO, __VA_ARGS__)
+#define putchar(c) fputc ((c), PO)
 #endif
